@@ -53,6 +53,10 @@ type C17Spec struct {
 	Cold bool `json:"cold,omitempty"`
 	// Shape of every table the world makes (c17_util.go: 0 the good table, 1.. tables without columns)
 	Shape int `json:"shape,omitempty"`
+	// Vary: every table the world makes has a content of its own (number of columns and
+	// rows, cell widths: a function of goroutine, table number and pass - c17_r6.go), so that
+	// no two goroutines ever draw the same widths; Shape is 0 then
+	Vary bool `json:"vary,omitempty"`
 }
 
 type C17Ev struct {
@@ -64,6 +68,10 @@ type C17Ev struct {
 	R      *RRes    `json:"r,omitempty"`
 	S      int64    `json:"s"`
 	E      int64    `json:"e"`
+	// Vary worlds: the content (seed) of the table rendered and the raw output, named by
+	// a palette decoration only after the join (c17Resolve)
+	Tab int `json:"tab,omitempty"`
+	raw string
 }
 
 type C17Out struct {
@@ -84,7 +92,12 @@ var (
 )
 
 // Render() named by the palette (for this shape), cross-checked with RenderTo
-func c17Render(tt *texttable.TextTable) RRes {
+func c17Render(tt *texttable.TextTable, seed int, ev *C17Ev) RRes {
+	if seed != 0 {
+		r, raw := c17RenderVaried(tt)
+		ev.Tab, ev.raw = seed, raw
+		return r
+	}
 	r := renderRes(tt.Render, shapeOutToID[c17Shape])
 	if r.K == "panic" {
 		return r
@@ -105,7 +118,8 @@ func c17Render(tt *texttable.TextTable) RRes {
 	return r
 }
 
-func c17Exec(op c17op, tabs *[]*texttable.TextTable) (ev C17Ev) {
+func c17Exec(op c17op, cx *c17ctx) (ev C17Ev) {
+	tabs := &cx.tabs
 	ev.Op = op.C17Op
 	switch op.K {
 	case "reg":
@@ -125,36 +139,39 @@ func c17Exec(op c17op, tabs *[]*texttable.TextTable) (ev C17Ev) {
 		}
 		scribble(l)
 	case "set":
-		tt := texttable.Wrap(shapeTable(c17Shape))
+		seed := cx.newSeed()
+		tt := texttable.Wrap(c17Table(seed))
 		_, err := tt.SetDecorationNamed(op.name)
 		ev.SetErr = err != nil
-		r := c17Render(tt)
+		r := c17Render(tt, seed, &ev)
 		ev.R = &r
 		*tabs = append(*tabs, tt)
+		cx.seeds = append(cx.seeds, seed)
 	case "auto":
 		// auto.New + fill and auto.Wrap of a filled table in turn; auto.Render and
 		// auto.RenderTo of another such table must say the same
 		style := op.P + op.name
+		seed := cx.newSeed()
 		var rt auto.RenderTable
 		if len(*tabs)%2 == 0 {
 			rt = auto.New(style)
-			fillShape(rt, c17Shape)
+			c17Fill(rt, seed)
 		} else {
-			rt = auto.Wrap(shapeTable(c17Shape), style)
+			rt = auto.Wrap(c17Table(seed), style)
 		}
 		tt, isText := rt.(*texttable.TextTable)
 		if !isText {
 			ev.R = &RRes{K: "panic", Msg: fmt.Sprintf("auto.New/Wrap(%q) is a %T", style, rt)}
-			tt = texttable.Wrap(shapeTable(c17Shape))
+			tt = texttable.Wrap(c17Table(seed))
 		} else {
-			r := c17Render(tt)
+			r := c17Render(tt, seed, &ev)
 			if c17Sequential {
 				// (each of these looks the name up for itself: comparable only when nobody
 				// else is registering meanwhile)
 				out1, err1 := rt.Render()
-				out2, err2 := auto.Render(shapeTable(c17Shape), style)
+				out2, err2 := auto.Render(c17Table(seed), style)
 				var b bytes.Buffer
-				err3 := auto.RenderTo(shapeTable(c17Shape), &b, style)
+				err3 := auto.RenderTo(c17Table(seed), &b, style)
 				if (err1 == nil) != (err2 == nil) || (err1 == nil) != (err3 == nil) || out1 != out2 || (err3 == nil && b.String() != out1) {
 					r = RRes{K: "panic", Msg: fmt.Sprintf("auto.Render / auto.RenderTo (%q, %v / %q, %v) disagree with the wrapper's Render (%q, %v) for style %q", out2, err2, b.String(), err3, out1, err1, style)}
 				}
@@ -162,9 +179,10 @@ func c17Exec(op c17op, tabs *[]*texttable.TextTable) (ev C17Ev) {
 			ev.R = &r
 		}
 		*tabs = append(*tabs, tt)
+		cx.seeds = append(cx.seeds, seed)
 	case "render":
 		if op.I >= 0 && op.I < len(*tabs) {
-			r := c17Render((*tabs)[op.I])
+			r := c17Render((*tabs)[op.I], cx.seeds[op.I], &ev)
 			ev.R = &r
 		}
 	case "reset":
@@ -172,14 +190,14 @@ func c17Exec(op c17op, tabs *[]*texttable.TextTable) (ev C17Ev) {
 			tt := (*tabs)[op.I]
 			_, err := tt.SetDecorationNamed(op.name)
 			ev.SetErr = err != nil
-			r := c17Render(tt)
+			r := c17Render(tt, cx.seeds[op.I], &ev)
 			ev.R = &r
 		}
 	case "setdec":
 		if op.I >= 0 && op.I < len(*tabs) {
 			tt := (*tabs)[op.I]
 			tt.SetDecoration(regPalette[op.D])
-			r := c17Render(tt)
+			r := c17Render(tt, cx.seeds[op.I], &ev)
 			ev.R = &r
 		}
 	default:
@@ -227,6 +245,10 @@ func c17Worker() {
 		panic("no such table shape")
 	}
 	c17Shape = spec.Shape
+	c17Vary = spec.Vary
+	if c17Vary && c17Shape != 0 {
+		panic("varied tables have shape 0")
+	}
 	c17Sequential = spec.Mode == "seq"
 	progs := c17Decode(spec.Progs)
 	var out C17Out
@@ -238,14 +260,15 @@ func c17Worker() {
 	var clock int64
 	if spec.Mode == "seq" {
 		for g, p := range progs {
-			var tabs []*texttable.TextTable
+			cx := &c17ctx{g: g}
 			for _, o := range p {
 				s := atomic.AddInt64(&clock, 1)
-				ev := c17Exec(o, &tabs)
+				ev := c17Exec(o, cx)
 				ev.G, ev.S, ev.E = g, s, atomic.AddInt64(&clock, 1)
 				out.Events = append(out.Events, ev)
 			}
 		}
+		c17Resolve(out.Events)
 		json.NewEncoder(os.Stdout).Encode(out)
 		return
 	}
@@ -257,12 +280,12 @@ func c17Worker() {
 		wg.Add(1)
 		go func(g int) {
 			defer wg.Done()
-			var tabs []*texttable.TextTable
+			cx := &c17ctx{g: g}
 			evs := make([]C17Ev, 0, len(progs[g]))
 			<-start
 			for _, o := range progs[g] {
 				s := atomic.AddInt64(&clock, 1)
-				ev := c17Exec(o, &tabs)
+				ev := c17Exec(o, cx)
 				ev.E = atomic.AddInt64(&clock, 1)
 				ev.G, ev.S = g, s
 				evs = append(evs, ev)
@@ -292,19 +315,20 @@ func c17Worker() {
 		uni = append(uni, n)
 	}
 	sort.Strings(uni)
-	var none []*texttable.TextTable
+	none := &c17ctx{g: len(progs)}
 	for _, n := range uni {
 		s := atomic.AddInt64(&clock, 1)
-		ev := c17Exec(c17op{C17Op{K: "named", N: qname(n)}, n}, &none)
+		ev := c17Exec(c17op{C17Op{K: "named", N: qname(n)}, n}, none)
 		ev.G, ev.S, ev.E = len(progs), s, atomic.AddInt64(&clock, 1)
 		out.Events = append(out.Events, ev)
 	}
 	{
 		s := atomic.AddInt64(&clock, 1)
-		ev := c17Exec(c17op{C17Op{K: "names"}, ""}, &none)
+		ev := c17Exec(c17op{C17Op{K: "names"}, ""}, none)
 		ev.G, ev.S, ev.E = len(progs), s, atomic.AddInt64(&clock, 1)
 		out.Events = append(out.Events, ev)
 	}
+	c17Resolve(out.Events)
 	// ---- raw phase: same programs, no stamps, nothing shared but the registry
 	allowed := map[string]map[int]bool{}
 	allow := func(n string, d int) {
@@ -371,11 +395,11 @@ func c17Worker() {
 			wg.Add(1)
 			go func(g int) {
 				defer wg.Done()
-				var tabs []*texttable.TextTable
+				cx := &c17ctx{g: g, pass: 1 + round}
 				evs := make([]C17Ev, 0, len(rprogs[g]))
 				<-start2
 				for _, o := range rprogs[g] {
-					evs = append(evs, c17Exec(o, &tabs))
+					evs = append(evs, c17Exec(o, cx))
 				}
 				raw[g] = evs
 			}(g)
@@ -444,6 +468,9 @@ func c17Worker() {
 			}
 		}
 	}
+	if msg := c17RendersByName(6, 14); msg != "" && out.RawBad == "" {
+		out.RawBad = msg
+	}
 	if msg := c17Stress(3, 3, 160); msg != "" && out.RawBad == "" {
 		out.RawBad = msg
 	}
@@ -476,7 +503,7 @@ func c17Overwrite(writers, readers, versions int) string {
 	}
 	names := make([]string, writers)
 	for k := range names {
-		names[k] = fmt.Sprintf("overwritten-%d", k)
+		names[k] = fmt.Sprintf("overwritten-%d", k) + strings.Repeat("!", k*83) // a short name and longer ones
 		decoration.RegisterDecorationName(names[k], version(k, 0))
 	}
 	progress := make([]int32, writers) // last version whose registration has returned
@@ -592,7 +619,8 @@ func c17Stress(writers, listers, per int) string {
 	for k := range fresh {
 		for j := 0; j < per; j++ {
 			// sorted positions all over the listing
-			n := fmt.Sprintf("%c~stress%d-%03d", "am0zZ-u"[(j*5+k)%7], k, j)
+			// sorted positions all over the listing, lengths from 12 to 130
+			n := fmt.Sprintf("%c~stress%d-%03d", "am0zZ-u"[(j*5+k)%7], k, j) + strings.Repeat("+", (j*13+k*7)%120)
 			fresh[k] = append(fresh[k], n)
 			idx[n] = int32(B + k*per + j)
 		}
@@ -842,6 +870,16 @@ func c17Run(spec json.RawMessage) CaseOut {
 	}
 	if sp.Cold {
 		tags = append(tags, "cold-start(first registry operation is the program's)")
+	}
+	if sp.Vary {
+		tags = append(tags, "tables=own-content(columns, rows and widths differ per goroutine and table)")
+	}
+	for _, p := range sp.Progs {
+		for _, o := range p {
+			if o.N != "" || o.K == "reg" || o.K == "named" || o.K == "set" {
+				tags = append(tags, c17LenTag(len(unq(o.N))))
+			}
+		}
 	}
 	switch {
 	case nOps <= 3:
@@ -1142,6 +1180,9 @@ func c17Gen(r *RNG, tier string) []json.RawMessage {
 		// the shape of the world's tables: the good table, or one of four without any column
 		// (what is drawn is the frame only; the refusal of an unknown name must not depend on it)
 		s.Shape = []int{0, 1, 2, 3, 4, 0, 0}[len(out)%7]
+		if s.Vary {
+			s.Shape = 0 // tables of their own: like the good one, with other numbers and widths
+		}
 		out = append(out, mustJSON(s))
 	}
 	// (a) every sequential history of length L over a reduced alphabet
@@ -1185,6 +1226,8 @@ func c17Gen(r *RNG, tier string) []json.RawMessage {
 	}
 	add(c17KeywordWorld(r))
 	add(c17KeywordWorld(r))
+	// (a4) names of every length, over four alphabets (c17_r6.go)
+	c17NameWorlds(r, tier, add)
 	// (b) random sequential histories over more names and the whole palette
 	nseq := 150
 	if tier == "thorough" {
@@ -1199,7 +1242,7 @@ func c17Gen(r *RNG, tier string) []json.RawMessage {
 		for j := 0; j < n; j++ {
 			p = append(p, c17RandOp(r, names, allDecs, &nsets, false))
 		}
-		add(C17Spec{Mode: "seq", Progs: [][]C17Op{p}})
+		add(C17Spec{Mode: "seq", Progs: [][]C17Op{p}, Vary: i%4 == 3})
 	}
 	// (c) concurrent runs
 	nconc, gmin, gmax, omin, omax := 12, 4, 8, 40, 90
@@ -1214,6 +1257,12 @@ func c17Gen(r *RNG, tier string) []json.RawMessage {
 		}
 		names := c17Names[:2+r.Intn(len(c17Names)-1)]
 		decs := allDecs[r.Intn(2):]
+		// every other concurrent world: tables of their own (no two goroutines draw the same
+		// widths) and some long names in the pool
+		vary := i%2 == 0
+		if vary {
+			names = c17LongPool(r, names)
+		}
 		var progs [][]C17Op
 		if i%3 == 2 {
 			// registration bursts: half of the goroutines register NEW names of their own, one after
@@ -1224,6 +1273,9 @@ func c17Gen(r *RNG, tier string) []json.RawMessage {
 				var p []C17Op
 				for j := 0; j < nops/3; j++ {
 					nm := fmt.Sprintf("w%d-%c%d", k, 'a'+byte((j*7+k)%26), j)
+					if vary {
+						nm += strings.Repeat("=", (j*29+k*11)%150) // names of many lengths
+					}
 					all = append(all, nm)
 					p = append(p, C17Op{K: "reg", N: qname(nm), D: 1 + (j+k)%13})
 				}
@@ -1243,7 +1295,7 @@ func c17Gen(r *RNG, tier string) []json.RawMessage {
 				}
 				progs = append(progs, p)
 			}
-			add(C17Spec{Mode: "conc", Progs: progs})
+			add(C17Spec{Mode: "conc", Progs: progs, Vary: vary})
 			continue
 		}
 		for k := 0; k < g; k++ {
@@ -1258,7 +1310,7 @@ func c17Gen(r *RNG, tier string) []json.RawMessage {
 			}
 			progs = append(progs, p)
 		}
-		add(C17Spec{Mode: "conc", Progs: progs})
+		add(C17Spec{Mode: "conc", Progs: progs, Vary: vary})
 	}
 	prefetchChildren("C17worker", out, 12)
 	return out
@@ -1337,6 +1389,10 @@ func init() {
 			"lookups under fire: 2 goroutines overwriting their own name with 1,500 versioned decorations while 4 look the names up, each result checked against the versions whose registration had returned / could have started, " +
 			"and after the join every route must see the last version), and three unstamped passes for the race detector (the last two registering fresh names, every listing checked for the names that were there when the pass began); " +
 			"every listing the library returns is overwritten, extended within its capacity and reversed after it was recorded; " +
+			"name worlds (round 6): names of every length 0-130 (thorough 0-300) and 2^k-1, 2^k, 2^k+1 up to 2^12 (thorough 2^14) bytes, ten lengths per world, over four alphabets (one repeated letter: the names are prefixes of each other; arbitrary bytes; ASCII words; UTF-8 cut anywhere), " +
+			"each looked up and selected through every route before and after its registration, with the names that resemble it (same length with the first/middle/last byte changed, one byte longer, one shorter), overwritten, listed and read back; long names also in every other concurrent world and in the passes under fire; " +
+			"'vary' worlds (every other concurrent world, every fourth random history, every third name world): each table has a content of its own (2-4 columns, 1-3 rows, widths 1-251, a function of pass, goroutine and table number), outputs named after the join by the direct rendering of the same content; " +
+			"every concurrent world also has a pass 'renders by name under fire' (6 goroutines x 14 tables of their own, selected by every registered name and an unregistered one through SetDecorationNamed / auto.New / auto.Wrap, rendered twice, nobody registering, no synchronisation in the harness; every output judged after the join against the direct rendering with the decoration the name held); " +
 			"the harness is built with -race and a race report in the child is part of the observation; a case is non-trivial when it both registers and reads; distinct = distinct specs",
 		Exhaustive: "all sequential histories of length 3 (thorough: 4) over the 10-operation alphabet (every shorter history is a prefix of one of them); all 2,048 (thorough 16,384) per-table sequences of length 4 (5) over the 8-operation table alphabet x 2 first names x 2 routes (SetDecorationNamed, auto.New)",
 		Gen:        c17Gen,
